@@ -6,6 +6,10 @@ ids = [p['id'] for p in props]
 
 # id -> (level, technique, text, note)
 CLAIMED = {
+ "C24": ("exploration", "catch_unwind panic monitor + exact i128 arithmetic model + usability probe after every statement, over boundary-value and hostile statements",
+         "Sessions of boundary-value integer expressions, aggregates and 26 hostile statement families plus generated multi-table queries with boundary literals; panics, integer results differing from the exact value, and a database that stops answering are violations.",
+         "Built with overflow checks: a wrap shows as a panic. Results of hostile string/cast families are not modelled."),
+
  "C34": ("exploration", "audit-table event log written by trigger bodies (tag, OLD image, NEW image) checked against a firing model after every statement",
          "Random trigger sets (timing x event x granularity x WHEN, failing bodies) and DML histories; the audit rows of each statement are compared with the expected multiset of firings and row images, and failing triggers must fail the statement without changing the table.",
          "Triggers are created through the executor API; UPDATE OF on an assigned-but-unchanged column may or may not fire."),
